@@ -382,3 +382,117 @@ Proof.
   exists (argmax_first scores). rewrite <- Ls. repeat split; auto.
 Qed.
 End SplineCVProofs.
+
+(** * facts about the weighted R2 *)
+Lemma qsum_cons x t : qsum (x :: t) == x + qsum t.
+Proof. cbn [qsum]. apply Qred_correct. Qed.
+
+Lemma wsum_cons a w b x : wsum (a :: w) (b :: x) == a * b + wsum w x.
+Proof. unfold wsum. cbn [map2]. apply qsum_cons. Qed.
+
+Lemma wsum_nil_l x : wsum [] x = 0. Proof. reflexivity. Qed.
+Lemma wsum_nil_r w : wsum w [] = 0. Proof. destruct w; reflexivity. Qed.
+
+Lemma qsum_scale c w : qsum (map (Qmult c) w) == c * qsum w.
+Proof.
+  induction w as [|a t IH]; cbn [map].
+  - cbn. ring.
+  - rewrite !qsum_cons, IH. ring.
+Qed.
+
+Lemma wsum_scale c w x : wsum (map (Qmult c) w) x == c * wsum w x.
+Proof.
+  revert x. induction w as [|a t IH]; intros [|b x]; cbn [map]; try (cbn; ring).
+  rewrite !wsum_cons, IH. ring.
+Qed.
+
+Lemma wsum_ext_r w x x' : Forall2 Qeq x x' -> wsum w x == wsum w x'.
+Proof.
+  intros H. revert w. induction H as [|b b' x x' Hb Hx IH]; intros [|a w]; try reflexivity.
+  rewrite !wsum_cons, Hb, IH. reflexivity.
+Qed.
+
+Lemma wsum_zero w x : Forall (fun v => v == 0) x -> wsum w x == 0.
+Proof.
+  intros H. revert w. induction H as [|b x Hb Hx IH]; intros [|a w]; try reflexivity.
+  rewrite wsum_cons, Hb, IH. ring.
+Qed.
+
+Lemma Qeqb_proper a a' b : a == a' -> Qeqb a b = Qeqb a' b.
+Proof.
+  intros H. destruct (Qeqb a b) eqn:E1, (Qeqb a' b) eqn:E2; try reflexivity.
+  - apply Qeqb_spec in E1. assert (E: a' == b) by (rewrite <- H; exact E1).
+    apply Qeqb_spec in E. congruence.
+  - apply Qeqb_spec in E2. assert (E: a == b) by (rewrite H; exact E2).
+    apply Qeqb_spec in E. congruence.
+Qed.
+
+Lemma Qeqb_scale0 c a : ~ c == 0 -> Qeqb (c * a) 0 = Qeqb a 0.
+Proof.
+  intros Hc. destruct (Qeqb a 0) eqn:E.
+  - apply Qeqb_spec in E. apply Qeqb_spec. rewrite E. ring.
+  - destruct (Qeqb (c * a) 0) eqn:E2; [|reflexivity].
+    apply Qeqb_spec in E2. apply Qmult_integral in E2. destruct E2 as [E2|E2]; [contradiction|].
+    apply Qeqb_spec in E2. congruence.
+Qed.
+
+Lemma Qdiv_scale c a b : ~ c == 0 -> (c * a) / (c * b) == a / b.
+Proof.
+  intros Hc. destruct (Qeq_dec b 0) as [Hb|Hb].
+  - unfold Qdiv. assert (E: c * b == 0) by (rewrite Hb; ring).
+    rewrite E, Hb. cbn. ring.
+  - field. split; assumption.
+Qed.
+
+Lemma wmean_scale c w y : ~ c == 0 -> wmean (map (Qmult c) w) y == wmean w y.
+Proof.
+  intros Hc. unfold wmean. rewrite !Qred_correct, wsum_scale, qsum_scale. apply Qdiv_scale. exact Hc.
+Qed.
+
+Lemma dev_ext mu mu' y : mu == mu' ->
+  Forall2 Qeq (map (fun a => (a - mu) * (a - mu)) y) (map (fun a => (a - mu') * (a - mu')) y).
+Proof.
+  intros H. induction y as [|a t IH]; cbn; constructor; [rewrite H; reflexivity|exact IH].
+Qed.
+
+Lemma r2_den_scale c w y : ~ c == 0 -> r2_den (map (Qmult c) w) y == c * r2_den w y.
+Proof.
+  intros Hc. unfold r2_den.
+  rewrite (wsum_ext_r _ _ _ (dev_ext _ _ y (wmean_scale c w y Hc))). apply wsum_scale.
+Qed.
+
+(** R2 is invariant under rescaling of the weights *)
+Theorem r2w_weight_scale c w y yhat : ~ c == 0 -> r2w (map (Qmult c) w) y yhat == r2w w y yhat.
+Proof.
+  intros Hc. unfold r2w.
+  assert (En: r2_num (map (Qmult c) w) y yhat == c * r2_num w y yhat) by apply wsum_scale.
+  pose proof (r2_den_scale c w y Hc) as Ed.
+  rewrite (Qeqb_proper _ _ 0 Ed), (Qeqb_proper _ _ 0 En), !Qeqb_scale0 by exact Hc.
+  destruct (Qeqb (r2_den w y) 0); [reflexivity|].
+  rewrite En, Ed, Qdiv_scale by exact Hc. reflexivity.
+Qed.
+
+Theorem r2_weight_scale c w y yhat : ~ c == 0 ->
+  r2 (Some (map (Qmult c) w)) y yhat == r2 (Some w) y yhat.
+Proof. intros Hc. unfold r2. cbn [wts]. apply r2w_weight_scale. exact Hc. Qed.
+
+Lemma sqerr_self y : Forall (fun v => v == 0) (sqerr y y).
+Proof. induction y as [|a t IH]; cbn; constructor; [ring|exact IH]. Qed.
+
+(** a perfect prediction scores exactly 1 (also for constant data, as scikit-learn's force_finite) *)
+Theorem r2w_perfect w y : r2w w y y == 1.
+Proof.
+  unfold r2w. assert (En: r2_num w y y == 0) by (apply wsum_zero, sqerr_self).
+  rewrite (Qeqb_proper _ _ 0 En). change (Qeqb 0 0) with true.
+  destruct (Qeqb (r2_den w y) 0); [reflexivity|]. rewrite En. unfold Qdiv. ring.
+Qed.
+
+Theorem r2_perfect w y : r2 w y y == 1.
+Proof. unfold r2. apply r2w_perfect. Qed.
+
+(** with positive weights and non-constant data R2 is 1 - (weighted squared error)/(weighted variance) *)
+Theorem r2w_formula w y yhat : ~ r2_den w y == 0 ->
+  r2w w y yhat == 1 - wsum w (sqerr y yhat) / wsum w (map (fun a => (a - wmean w y) * (a - wmean w y)) y).
+Proof.
+  intros H. unfold r2w. destruct (Qeqb (r2_den w y) 0) eqn:E; [apply Qeqb_spec in E; contradiction|reflexivity].
+Qed.
